@@ -85,14 +85,14 @@ pub fn cv<T>(id: i64, v: T) -> T {
     log(format!("E{}", id));
     v
 }
-pub fn add(id: i64, k: i64) -> impl Fn(i64) -> i64 + Send + Sync + 'static {
+pub fn add(id: i64, k: i64) -> impl Fn(i64) -> i64 + Send + Sync + Copy + 'static {
     log(format!("E{}", id));
     move |x| {
         log(format!("C{}({})", id, x.show()));
         x + k
     }
 }
-pub fn opt_if(id: i64, m: i64, r: i64, k: i64) -> impl Fn(i64) -> Option<i64> + Send + Sync + 'static {
+pub fn opt_if(id: i64, m: i64, r: i64, k: i64) -> impl Fn(i64) -> Option<i64> + Send + Sync + Copy + 'static {
     log(format!("E{}", id));
     move |x| {
         log(format!("C{}({})", id, x.show()));
@@ -103,7 +103,7 @@ pub fn opt_if(id: i64, m: i64, r: i64, k: i64) -> impl Fn(i64) -> Option<i64> + 
         }
     }
 }
-pub fn res_if(id: i64, m: i64, r: i64, k: i64, e: i64) -> impl Fn(i64) -> Result<i64, i64> + Send + Sync + 'static {
+pub fn res_if(id: i64, m: i64, r: i64, k: i64, e: i64) -> impl Fn(i64) -> Result<i64, i64> + Send + Sync + Copy + 'static {
     log(format!("E{}", id));
     move |x| {
         log(format!("C{}({})", id, x.show()));
@@ -114,34 +114,34 @@ pub fn res_if(id: i64, m: i64, r: i64, k: i64, e: i64) -> impl Fn(i64) -> Result
         }
     }
 }
-pub fn pred(id: i64, m: i64, r: i64) -> impl Fn(&i64) -> bool + Send + Sync + 'static {
+pub fn pred(id: i64, m: i64, r: i64) -> impl Fn(&i64) -> bool + Send + Sync + Copy + 'static {
     log(format!("E{}", id));
     move |x| {
         log(format!("C{}({})", id, x.show()));
         x.rem_euclid(m) != r
     }
 }
-pub fn ident<T: Show>(id: i64) -> impl Fn(T) -> T + Send + Sync + 'static {
+pub fn ident<T: Show>(id: i64) -> impl Fn(T) -> T + Send + Sync + Copy + 'static {
     log(format!("E{}", id));
     move |x| {
         log(format!("C{}({})", id, x.show()));
         x
     }
 }
-pub fn ins<T: Show>(id: i64) -> impl Fn(&T) + Send + Sync + 'static {
+pub fn ins<T: Show>(id: i64) -> impl Fn(&T) + Send + Sync + Copy + 'static {
     log(format!("E{}", id));
     move |x| {
         log(format!("C{}({})", id, x.show()));
     }
 }
-pub fn or_else_opt(id: i64, v: Option<i64>) -> impl Fn() -> Option<i64> + Send + Sync + 'static {
+pub fn or_else_opt(id: i64, v: Option<i64>) -> impl Fn() -> Option<i64> + Send + Sync + Copy + 'static {
     log(format!("E{}", id));
     move || {
         log(format!("C{}()", id));
         v
     }
 }
-pub fn or_else_res(id: i64, k: i64) -> impl Fn(i64) -> Result<i64, i64> + Send + Sync + 'static {
+pub fn or_else_res(id: i64, k: i64) -> impl Fn(i64) -> Result<i64, i64> + Send + Sync + Copy + 'static {
     log(format!("E{}", id));
     move |e| {
         log(format!("C{}({})", id, e.show()));
@@ -344,4 +344,118 @@ fhandlers!(fhd4, fhd4_ok, A, B, C, D);
 pub fn block_on_rt<F: std::future::Future>(f: F) -> F::Output {
     let rt = tokio::runtime::Builder::new_current_thread().enable_all().build().unwrap();
     rt.block_on(f)
+}
+pub fn boom_w<T: Show>(id: i64) -> impl Fn(T) -> T + Send + Sync + 'static {
+    log(format!("E{}", id));
+    move |x| {
+        log(format!("C{}({})", id, x.show()));
+        panic!("boom")
+    }
+}
+
+// ---- B1: iterator chains; the oracle is the plain-Rust documented chain compiled in the same binary ----
+impl Show for usize {
+    fn show(&self) -> String {
+        format!("{}", self)
+    }
+}
+impl Show for u8 {
+    fn show(&self) -> String {
+        format!("{}", self)
+    }
+}
+pub fn vals(id: i64, v: Vec<i64>) -> Vec<i64> {
+    log(format!("E{}", id));
+    v
+}
+pub fn iadd(id: i64, k: i64) -> impl FnMut(i64) -> i64 + Copy {
+    log(format!("E{}", id));
+    move |x| {
+        log(format!("C{}({})", id, x.show()));
+        x + k
+    }
+}
+pub fn ipred(id: i64, m: i64, r: i64) -> impl FnMut(&i64) -> bool + Copy {
+    log(format!("E{}", id));
+    move |x| {
+        log(format!("C{}({})", id, x.show()));
+        x.rem_euclid(m) != r
+    }
+}
+pub fn ioptif(id: i64, m: i64, r: i64, k: i64) -> impl FnMut(i64) -> Option<i64> + Copy {
+    log(format!("E{}", id));
+    move |x| {
+        log(format!("C{}({})", id, x.show()));
+        if x.rem_euclid(m) == r {
+            None
+        } else {
+            Some(x + k)
+        }
+    }
+}
+pub fn ifold(id: i64, k: i64) -> impl FnMut(i64, i64) -> i64 + Copy {
+    log(format!("E{}", id));
+    move |acc, x| {
+        log(format!("C{}({},{})", id, acc.show(), x.show()));
+        acc * k + x
+    }
+}
+pub fn itryfold(id: i64, m: i64, r: i64) -> impl FnMut(i64, i64) -> Option<i64> + Copy {
+    log(format!("E{}", id));
+    move |acc, x| {
+        log(format!("C{}({},{})", id, acc.show(), x.show()));
+        if x.rem_euclid(m) == r {
+            None
+        } else {
+            Some(acc + x)
+        }
+    }
+}
+pub fn ipairsum(id: i64) -> impl FnMut((i64, i64)) -> i64 + Copy {
+    log(format!("E{}", id));
+    move |(a, b)| {
+        log(format!("C{}({},{})", id, a.show(), b.show()));
+        a * 10 + b
+    }
+}
+pub fn ienum(id: i64) -> impl FnMut((usize, i64)) -> i64 + Copy {
+    log(format!("E{}", id));
+    move |(i, x)| {
+        log(format!("C{}({},{})", id, i.show(), x.show()));
+        x * 100 + i as i64
+    }
+}
+pub fn iins(id: i64) -> impl FnMut(&i64) + Copy {
+    log(format!("E{}", id));
+    move |x| {
+        log(format!("C{}({})", id, x.show()));
+    }
+}
+pub fn cint(id: i64, v: i64) -> i64 {
+    log(format!("E{}", id));
+    v
+}
+/// runs both versions of one B1 case and prints result / callback trace of each
+pub fn run_b1(id: &str, mac: impl FnOnce() -> String + std::panic::UnwindSafe, doc: impl FnOnce() -> String + std::panic::UnwindSafe) {
+    take_log();
+    let r1 = std::panic::catch_unwind(mac).unwrap_or_else(|_| "PANIC".to_string());
+    let l1 = take_log();
+    let r2 = std::panic::catch_unwind(doc).unwrap_or_else(|_| "PANIC".to_string());
+    let l2 = take_log();
+    println!("B1\t{}\t{}\t{}\t{}\t{}", id, r1, l1.join(" "), r2, l2.join(" "));
+}
+
+/// like run_case, but the macro is evaluated on a thread WITHOUT a name (std::thread::spawn)
+pub fn run_case_unnamed(id: &'static str, f: impl FnOnce() -> String + std::panic::UnwindSafe + Send + 'static) {
+    take_log();
+    let h = std::thread::spawn(move || std::panic::catch_unwind(f));
+    let res = match h.join() {
+        Ok(Ok(s)) => s,
+        _ => {
+            std::thread::sleep(std::time::Duration::from_millis(30));
+            "PANIC".to_string()
+        }
+    };
+    let lg = take_log();
+    println!("CASE\t{}\t{}\t{}", id, res, lg.join(" "));
 }
